@@ -26,11 +26,16 @@ type closestIn struct {
 	// how the map reaches the controller: "" = set directly; "config" = `pwmMap:` override of a real FileFan
 	// through the real computePwmMap; "persist" = saved with the real persistence layer (first start) and
 	// loaded by computePwmMap (later start)
-	Route string `json:"route,omitempty"`
+	// "hwmon" = `pwmMap:` override of a real HwMonFan with the limits below (they must not influence what is written)
+	Route     string `json:"route,omitempty"`
+	Lo        *int   `json:"lo,omitempty"`
+	Hi        *int   `json:"hi,omitempty"`
+	NeverStop bool   `json:"never_stop,omitempty"`
 }
 
 var closestWork string
 var closestSeq int
+
 type closestObs struct {
 	Supported []int  `json:"supported"`
 	Closest   []*int `json:"closest"` // nil = panic
@@ -52,7 +57,7 @@ func runClosest(in closestIn) (closestObs, string) {
 	switch in.Route {
 	case "":
 		c.VerifSetPwmMap(pm)
-	case "config", "persist":
+	case "config", "persist", "hwmon":
 		closestSeq++
 		dir := filepath.Join(closestWork, fmt.Sprintf("r%d", closestSeq))
 		_ = os.MkdirAll(dir, 0o755)
@@ -61,10 +66,16 @@ func runClosest(in closestIn) (closestObs, string) {
 		for k, v := range pm {
 			given[k] = v
 		}
-		if in.Route == "config" {
+		if in.Route == "config" || in.Route == "hwmon" {
 			filePath = filepath.Join(dir, "pwm")
 			_ = os.WriteFile(filePath, []byte("0"), 0o644)
-			ff, err := fans.NewFan(configuration.FanConfig{ID: "rec", Curve: "c", PwmMap: &given, File: &configuration.FileFanConfig{Path: filePath}})
+			fc := configuration.FanConfig{ID: "rec", Curve: "c", PwmMap: &given, File: &configuration.FileFanConfig{Path: filePath}}
+			if in.Route == "hwmon" {
+				fc = configuration.FanConfig{ID: "rec", Curve: "c", PwmMap: &given, NeverStop: in.NeverStop, MinPwm: in.Lo, MaxPwm: in.Hi,
+					HwMon: &configuration.HwMonFanConfig{Index: 1, RpmChannel: 1, PwmChannel: 1, PwmPath: filePath,
+						RpmInputPath: filepath.Join(dir, "fan1_input"), PwmEnablePath: filepath.Join(dir, "pwm1_enable")}}
+			}
+			ff, err := fans.NewFan(fc)
 			if err != nil {
 				panic(err)
 			}
@@ -99,10 +110,11 @@ func runClosest(in closestIn) (closestObs, string) {
 		fan.Writes = nil
 		var w *int
 		if filePath != "" {
-			_ = os.WriteFile(filePath, []byte("-1"), 0o644)
+			// the control keeps its content from request to request (a shorter value follows a longer one): what the
+			// fan is at afterwards is the whole content of the control
 			if p := catch(func() { _ = c.VerifSetPwm(r) }); p == "" {
 				if b, err := os.ReadFile(filePath); err == nil {
-					if v, err := strconv.Atoi(strings.TrimSpace(string(b))); err == nil && v != -1 {
+					if v, err := strconv.Atoi(strings.TrimSpace(string(b))); err == nil {
 						w = &v
 					}
 				}
@@ -174,10 +186,17 @@ func init() {
 			nEmit++
 			random := len(tags) > 0 && tags[0] == "random"
 			// every random map, and a rotating tenth of the exhaustive ones, also through the two real routes
-			for ri, route := range []string{"config", "persist"} {
-				if in.Route == "" && (random || nEmit%20 == ri*10) {
+			for ri, route := range []string{"config", "persist", "hwmon"} {
+				if in.Route == "" && (random || nEmit%30 == ri*10) {
 					in2 := in
 					in2.Route = route
+					if route == "hwmon" { // limits derived from the input alone
+						lo, hi := (nEmit*37)%200, 255-(nEmit*53)%200
+						if lo > hi {
+							lo, hi = hi, lo
+						}
+						in2.Lo, in2.Hi, in2.NeverStop = &lo, &hi, nEmit%2 == 0
+					}
 					emit1(in2, append(append([]string{}, tags...), "route="+route)...)
 				}
 			}
